@@ -203,6 +203,24 @@ impl TopicCache {
     prev_sn.unwrap_or(SequenceNumber::new(1)) < sn
   }
 
+  /// Where a reader that does not want anything that is already here should
+  /// start reading: the reception timestamp of the latest change, and the
+  /// latest sequence number held from each writer.
+  pub fn read_pointers_at_end(&self) -> (Timestamp, BTreeMap<GUID, SequenceNumber>) {
+    let latest_instant = self
+      .changes
+      .keys()
+      .next_back()
+      .copied()
+      .unwrap_or(Timestamp::ZERO);
+    let latest_sns = self
+      .sequence_numbers
+      .iter()
+      .filter_map(|(guid, sn_map)| sn_map.keys().next_back().map(|sn| (*guid, *sn)))
+      .collect();
+    (latest_instant, latest_sns)
+  }
+
   pub fn get_change(&self, instant: &Timestamp) -> Option<&CacheChange> {
     self.changes.get(instant)
   }
